@@ -34,3 +34,8 @@ Definition op_const (k : dkind) (inputs_const : list bool) (arg : option bool) :
 (* Tensor.astype / Tensor.copy: `constant` argument, None = inherit *)
 Definition copy_const (k : dkind) (track : bool) (self_const : bool) (arg : option bool) : init_result :=
   init_const k track (Some (match arg with None => self_const | Some b => b end)).
+
+(* Tensor._in_place_op (tensor_base.py:1741): the target keeps its own flag, whatever constant= says and whatever
+   the flags of the operands are *)
+Definition inplace_const (target_const : bool) (arg : option bool) (inputs_const : list bool) : init_result :=
+  InitOk target_const.
